@@ -125,10 +125,63 @@ def run(path, args=(), timeout=900, extra=()):
 FN_RE = re.compile(r"^\s*(?:pub(?:\([a-z]+\))?\s+)?(?:(?:open|closed|uninterp)\s+)?(?:(?:proof|spec|exec|const)\s+)*fn\s+(\w+)")
 
 
-def enclosing_fn(text_lines, line_no):
-    """Name of the innermost `fn` whose header precedes line_no (1-based)."""
-    for k in range(min(line_no, len(text_lines)) - 1, -1, -1):
-        m = FN_RE.match(text_lines[k])
-        if m:
-            return m.group(1)
-    return None
+def fn_spans(text):
+    """[(name, first_line, last_line)] for every fn with a body in text (nested ones included)."""
+    from .lex import lex
+    toks, _ = lex(text)
+    spans = []
+    k = 0
+    while k < len(toks) - 1:
+        if toks[k].text == "fn" and re.match(r"[A-Za-z_]", toks[k + 1].text):
+            name = toks[k + 1].text
+            depth = 0
+            j = k + 2
+            body = None
+            while j < len(toks):
+                x = toks[j].text
+                if x in "([":
+                    depth += 1
+                elif x in ")]":
+                    depth -= 1
+                elif x == ";" and depth == 0:
+                    break
+                elif x == "{" and depth == 0:
+                    # a `{` that opens a spec expression block (if/match inside requires/ensures) is
+                    # followed by a matching `}` and then more clause text; the body is the last
+                    # top-level block before the next item. We take the first `{` that is preceded
+                    # by `)` `>` an identifier, `,` or a clause end and is at bracket depth 0 and
+                    # whose matching `}` is followed by something that cannot continue an expression.
+                    d2 = 0
+                    e = j
+                    while e < len(toks):
+                        if toks[e].text == "{":
+                            d2 += 1
+                        elif toks[e].text == "}":
+                            d2 -= 1
+                            if d2 == 0:
+                                break
+                        e += 1
+                    nxt = toks[e + 1].text if e + 1 < len(toks) else "}"
+                    if nxt in (",", ")", "&&", "||", "==", "else", "&", "|", "=", ".", "+", "-", "<", ">", "!", ";") and nxt != "}":
+                        j = e + 1
+                        continue
+                    body = (j, e)
+                    break
+                j += 1
+            if body:
+                spans.append((name, toks[k].line, toks[body[1]].line))
+        k += 1
+    return spans
+
+
+def enclosing_fn(text_lines, line_no, _cache={}):
+    """Name of the innermost fn whose span contains line_no (1-based)."""
+    key = id(text_lines)
+    if key not in _cache:
+        _cache.clear()
+        _cache[key] = fn_spans("\n".join(text_lines))
+    best = None
+    for name, a, b in _cache[key]:
+        if a <= line_no <= b and (best is None or (a >= best[1])):
+            best = (name, a, b)
+    return best[0] if best else None
